@@ -69,13 +69,16 @@ def rooted_fresh(t):
 READ_ONLY = ("len", "capacity", "is_empty", "is_full", "as_slice", "as_ref", "iter", "first", "last", "get", "contains")
 
 
-def check_filter(ctx, F, cfg, type_path, acc_of, elem_ty, conv_ref, key, on_unknown):
+def check_filter(ctx, F, cfg, type_path, acc_of, elem_ty, conv_ref, key, flag=None):
     """one filtering visit_seq, from its path summaries (one symbolic iteration of the element loop):
        * the function returns from inside the loop only with the error of next_element itself;
        * the loop is left (break) only when next_element returned None;
        * on an iteration that got an element E: C = <conv>(E); C Ok -> exactly push(ACC, value of C) with the Result dropped,
-         C Err -> `on_unknown` (nothing / unknown = true); nothing else touches the output;
-       * the result after the loop is Ok(OUT), OUT starting as the empty default."""
+         C Err -> nothing / the `flag` member becomes true; nothing else touches the output;
+       * the result after the loop is Ok(OUT), OUT starting as the empty default.
+       The output is either one value updated in place (`out.list.push(..)`, `out.flag = true`) or assembled after the loop from
+       local accumulators (`let mut list = Vec::new(); let mut flag = false; .. Ok(T { list, flag })`): a local flag is followed
+       through the loop-carried values of the trace (false before the loop, true after an unknown entry, unchanged after a known one)."""
     de, vs = find_visit_seq(F, type_path)
     if not ctx.oblige(key + "|anchor", vs is not None, "anchor missing: hand-written visit_seq of " + type_path, cfg=cfg):
         return None
@@ -109,6 +112,43 @@ def check_filter(ctx, F, cfg, type_path, acc_of, elem_ty, conv_ref, key, on_unkn
     outs = set()
     n_iter = n_push = 0
     elem_tys = set()
+
+    def member(out, name):
+        if out is not None and out[0] == "struct":
+            return dict(out[2]).get(name)
+        return ("field", out, name)
+
+    def unwrap_mut(t):
+        while t is not None and t[0] == "mutated":
+            t = t[1]
+        return t
+
+    def normal(out):
+        """the returned value with a loop-carried flag member abstracted (its value is the clause's business, not its identity)"""
+        if flag and out is not None and out[0] == "struct":
+            return ("struct", out[1], tuple((k, ("flag",) if k == flag and v[0] in ("unk", "lit") else unwrap_mut(v)) for k, v in out[2]))
+        return out
+
+    # a local flag: the loop-carried local whose value at the exit of the loop is the flag member of the result
+    local_flag = None       # (local id, symbol at iteration start, value before the loop)
+    for p in paths:
+        r = p.result
+        if flag and any(t[0] == "break" for t in p.trace) and r is not None and r[0] == "ctor" and r[1] == S.OK and len(r[2]) == 1 and r[2][0][0] == "struct":
+            fv = member(r[2][0], flag)
+            for ev in p.trace:
+                if ev[0] == "enter":
+                    for lid, _name, init, lv in ev[2]:
+                        if lv == fv:
+                            local_flag = (lid, lv, init)
+    if local_flag is not None:
+        ctx.oblige(key + "|flag-starts-false", local_flag[2] == ("lit", False), "the unknown-entry flag starts as %s, not false" % S.show(local_flag[2])[:40], cfg=cfg, where=where)
+
+    def flag_after(p):
+        for ev in p.trace:
+            if ev[0] == "iter":
+                return sym.resolve(p, dict(ev[2]).get(local_flag[0]))
+        return None
+
     for i, p in enumerate(paths):
         if p.done and p.done[0] == "panic":
             ctx.oblige(key + "|no-panic|" + str(p.done[1])[:50], False, "the list decoder can panic (%s): a full list or a bad entry would abort instead of being skipped" % (p.done,), cfg=cfg, where=where)
@@ -134,7 +174,7 @@ def check_filter(ctx, F, cfg, type_path, acc_of, elem_ty, conv_ref, key, on_unkn
         good = r is not None and r[0] == "ctor" and r[1] == S.OK and len(r[2]) == 1
         ctx.oblige(key + "|returns-output|%d" % i, good, "the result after the loop is %s, not Ok(<the list built>)" % S.show(r)[:80], cfg=cfg, where=where, nontrivial=False)
         if good:
-            outs.add(r[2][0])
+            outs.add(normal(r[2][0]))
         if "break" in [t[0] for t in p.trace]:
             ctx.oblige(key + "|drains|%d" % i, nk == S.OK and ok_known == S.NONE and not muts and not convs,
                        "the element loop is left when %s: elements that were not read stay in the input (the rest of the array would be read as the next parameter)" % [S.show_atom(a) for a in p.atoms][-2:], cfg=cfg, where=where)
@@ -158,16 +198,25 @@ def check_filter(ctx, F, cfg, type_path, acc_of, elem_ty, conv_ref, key, on_unkn
                 n_push += 1
                 P = pushes[0]
                 ctx.oblige(key + "|push-discarded", sym.lookup(p, P.term) is None, "the Result of push is inspected (`?`, unwrap or a test): a full list would fail the request, panic or change the flow", cfg=cfg, where=H.line(P.node))
-                ctx.oblige(key + "|pushes-into-output", out0 is not None and acc_of(out0) == P.args[0], "the entry is pushed into %s, which is not the list that is returned" % S.show(P.args[0])[:60], cfg=cfg, where=H.line(P.node))
+                ctx.oblige(key + "|pushes-into-output", out0 is not None and unwrap_mut(acc_of(out0, member)) == unwrap_mut(P.args[0]), "the entry is pushed into %s, which is not the list that is returned" % S.show(P.args[0])[:60], cfg=cfg, where=H.line(P.node))
+            if local_flag is not None:
+                ctx.oblige(key + "|known-keeps-flag", flag_after(p) == local_flag[1], "a known entry changes the unknown-entry flag to %s" % S.show(flag_after(p) or ("unk", 0, "?"))[:40], cfg=cfg, where=where)
         else:
-            want = on_unknown(out0)
             got = [(e.kind, tuple(e.args)) for e in muts]
-            ctx.oblige(key + "|unknown-continues", got == want, "an unknown entry leads to %s, expected %s" % (["%s(%s)" % (S.short_fn(e.callee), ", ".join(S.show(a)[:40] for a in e.args)) for e in muts], "nothing" if not want else "unknown = true"), cfg=cfg, where=where)
+            if local_flag is not None:
+                good_u = got == [] and flag_after(p) == ("lit", True)
+                shown = "flag = %s, %s" % (S.show(flag_after(p) or ("unk", 0, "?"))[:40], [S.short_fn(e.callee) for e in muts])
+            else:
+                want = [("assign", (member(out0, flag), ("lit", True)))] if flag else []
+                good_u = got == want
+                shown = ["%s(%s)" % (S.short_fn(e.callee), ", ".join(S.show(a)[:40] for a in e.args)) for e in muts]
+            ctx.oblige(key + "|unknown-continues", good_u, "an unknown entry leads to %s, expected %s" % (shown, "nothing" if not flag else "%s = true" % flag), cfg=cfg, where=where)
     ctx.oblige(key + "|elem-type", elem_tys == {elem_ty}, "elements are decoded as %s, expected %s" % (sorted(elem_tys), elem_ty), cfg=cfg, where=where)
     ctx.oblige(key + "|one-output", len(outs) == 1, "the list decoder returns %d different values" % len(outs), cfg=cfg, where=where, nontrivial=False)
     if len(outs) == 1:
         out = next(iter(outs))
-        ctx.oblige(key + "|starts-empty", rooted_fresh(out), "the output list does not start as the empty default (%s)" % S.show(out)[:60], cfg=cfg, where=where)
+        starts = rooted_fresh(out) or (out[0] == "struct" and all(k == flag or rooted_fresh(unwrap_mut(v)) for k, v in out[2]) and (not flag or local_flag is not None))
+        ctx.oblige(key + "|starts-empty", starts, "the output list does not start as the empty default (%s)" % S.show(out)[:60], cfg=cfg, where=where)
     ctx.oblige(key + "|one-push", n_push >= 1 and n_iter >= 2, "the loop body does not have both a known (push) and an unknown branch", cfg=cfg, where=where)
     ctx.sample({"cfg": cfg, "filter": type_path, "paths": S.summarize(paths)}, limit=4)
     return {"vs": vs, "paths": paths, "sym": sym}
@@ -235,8 +284,8 @@ def run(ctx):
     ctx.trusted = ["heapless 0.7.17 Vec::push appends at the end or returns Err when full", "cbor-smol 0.5.1 SeqAccess::next_element", "derive(Deserialize) for PublicKeyCredentialParameters (C01 table)"]
     for cfg, F in ctx.facts.items():
         # ------------------------------------------------ algorithm list
-        check_filter(ctx, F, cfg, "webauthn::FilteredPublicKeyCredentialParameters", lambda out: out[2][0] if out[0] == "ctor" and len(out[2]) == 1 else None, PARAMS,
-                     "<%s as core::convert::TryFrom<%s>>" % (KNOWN, PARAMS), "C14|algs", lambda out: [])
+        check_filter(ctx, F, cfg, "webauthn::FilteredPublicKeyCredentialParameters", lambda out, member: out[2][0] if out[0] == "ctor" and len(out[2]) == 1 else None, PARAMS,
+                     "<%s as core::convert::TryFrom<%s>>" % (KNOWN, PARAMS), "C14|algs")
         # ------------------------------------------------ known-parameter conversion
         conv = F.trait_impl_fn("<%s as core::convert::TryFrom<%s>>" % (KNOWN, PARAMS), "try_from")
         if ctx.oblige("C14|known|anchor", conv is not None, "anchor missing: TryFrom<PublicKeyCredentialParameters> for Known..", cfg=cfg):
@@ -256,8 +305,8 @@ def run(ctx):
                    "known_formats is %s for %s known formats" % (ft.get("known_formats"), fmt and len(fmt["variants"])), cfg=cfg)
         ctx.oblige("C14|formats|flag-type", ft.get("unknown") == "bool", "the unknown-format flag is %s" % ft.get("unknown"), cfg=cfg, nontrivial=False)
         # ------------------------------------------------ attestation formats
-        check_filter(ctx, F, cfg, "ctap2::AttestationFormatsPreference", lambda out: ("field", out, "known_formats"), "&str",
-                     "<%s as core::convert::TryFrom<&str>>" % FMT, "C14|formats", lambda out: [("assign", (("field", out, "unknown"), ("lit", True)))])
+        check_filter(ctx, F, cfg, "ctap2::AttestationFormatsPreference", lambda out, member: member(out, "known_formats"), "&str",
+                     "<%s as core::convert::TryFrom<&str>>" % FMT, "C14|formats", flag="unknown")
         # accepted formats
         bwd = F.trait_impl_fn("<%s as core::convert::TryFrom<&str>>" % FMT, "try_from")
         if ctx.oblige("C14|formats|table|anchor", bwd is not None, "anchor missing: TryFrom<&str> for AttestationStatementFormat", cfg=cfg):
